@@ -87,6 +87,11 @@ func (e *Env) bidLine(ka, kb uint64, b types.Bid) string {
 	u := "-1"
 	if strings.HasPrefix(enc, "0 ") {
 		u = enc[2:]
+	} else if strings.HasPrefix(enc, "1 ") {
+		// the account is known but recorded in another spelling than the canonical one: the record keeps its
+		// owner (so that every later check about this bidder sees the bid) and the consistency flag says no
+		u = enc[2:]
+		ok = false
 	}
 	return fmt.Sprintf("ST B %d %d %s %d %s %d %s %d %d", ka, kb, u, int(b.Type), encDec(b.Price),
 		denomIdx(b.Coin.Denom), b.Coin.Amount, b2i(b.IsMatched), b2i(ok))
